@@ -76,6 +76,20 @@ func shapes(thorough bool) []*prog.Shape {
 			}
 		}
 	}
+	// many struct-typed fields under one parent (more than 8, 16)
+	for _, sig := range []string{
+		strings.Repeat("R(r)", 18),
+		strings.Repeat("O(o)", 9) + "r" + strings.Repeat("R(o)", 9),
+		"R(" + strings.Repeat("O(r)", 17) + ")r",
+	} {
+		c, err := prog.ParseSig(sig)
+		if err != nil {
+			panic(err)
+		}
+		k := len(out)
+		assign(c.Fields, &k)
+		add(c)
+	}
 	// every leaf type in every single-leaf context
 	for _, s := range prog.Enumerate(depth, 1, 3) {
 		if hasRepeated(s.Fields) {
